@@ -1140,10 +1140,85 @@ fn gen_huge(rng: &mut Rng, overflow: bool) -> AccTrace {
     t
 }
 
+/// A long-lived accumulator: hundreds to thousands of small frames through one object (state that
+/// is carried over, wraps or accumulates only shows after many operations).
+fn gen_long(rng: &mut Rng, overflow: bool) -> AccTrace {
+    let n = *rng.pick(&[4usize, 8, 16, 32, 64]);
+    let cfg = GenCfg { max_depth: 1, max_fan: 2, budget: n.saturating_sub(2).min(6), kinds: shape::K_ALL };
+    let shape = match rng.below(3) {
+        0 => Shape::U8,
+        1 => Shape::Bytes,
+        _ => Shape::Tuple(vec![Shape::U8, Shape::Bool]),
+    };
+    let count = *rng.pick(&[300usize, 257, 513, 1000, 2000]);
+    let mut segments = Vec::with_capacity(count);
+    for _ in 0..count {
+        let seg = match rng.below(12) {
+            0 => Seg { kind: SegKind::Empty, bytes: vec![0], expect: None },
+            1 => {
+                let l = rng.range(1, n);
+                let mut b = nonzero_bytes(rng, l - 1);
+                b.push(0);
+                Seg { kind: SegKind::Garbage, bytes: b, expect: None }
+            }
+            2 if overflow => {
+                let l = n + 1 + rng.small(n);
+                let mut b = nonzero_bytes(rng, l - 1);
+                b.push(0);
+                Seg { kind: SegKind::OverLongGarbage, bytes: b, expect: None }
+            }
+            _ => match valid_frame(rng, &cfg, &shape, n.min(8)) {
+                Some((b, v)) => Seg { kind: SegKind::Valid, bytes: b, expect: Some(Expect::Value(v)) },
+                None => Seg { kind: SegKind::Empty, bytes: vec![0], expect: None },
+            },
+        };
+        segments.push(seg);
+    }
+    let mut t = AccTrace {
+        n,
+        borrowed: rng.chance(1, 3),
+        shape,
+        segments,
+        tail: vec![],
+        chunks: Chunks::List(vec![]),
+        relocate: rng.chance(1, 4),
+        reuse_buf: rng.chance(1, 2),
+    };
+    let total = t.stream().len();
+    let k = *rng.pick(&[1usize, 3, 7, 32, 255, 256, 4096]);
+    let mut lens = Vec::new();
+    let mut used = 0;
+    while used < total {
+        let l = rng.range(1, k).min(total - used);
+        lens.push(l);
+        used += l;
+    }
+    t.chunks = Chunks::List(lens);
+    t
+}
+
 fn shrink_acc(t: &AccTrace) -> Vec<AccTrace> {
     let mut out = Vec::new();
+    if t.segments.len() > 16 {
+        // long histories: halves and quarters first
+        let n = t.segments.len();
+        for (a, b) in [(0, n / 2), (n / 2, n), (0, n / 4), (n / 4, n / 2), (n / 2, 3 * n / 4), (3 * n / 4, n)] {
+            let mut c = t.clone();
+            c.segments.drain(a..b);
+            c.chunks = Chunks::List(vec![]);
+            out.push(c.clone());
+            // same cut, but keep a chunking of the same granularity
+            if let Chunks::List(l) = &t.chunks {
+                if let Some(k) = l.iter().copied().filter(|x| *x > 0).max() {
+                    let total = c.stream().len();
+                    c.chunks = Chunks::List(vec![k; total / k + 1]);
+                    out.push(c);
+                }
+            }
+        }
+    }
     // drop segments
-    for i in 0..t.segments.len() {
+    for i in 0..t.segments.len().min(64) {
         let mut c = t.clone();
         c.segments.remove(i);
         out.push(c);
@@ -1337,6 +1412,8 @@ impl Scenario for C08 {
             gen_acc_trace(rng, &o, Some(l))
         } else if run % 197 == 1 {
             gen_huge(rng, false)
+        } else if run % 997 == 2 {
+            gen_long(rng, false)
         } else {
             gen_acc_trace(rng, &o, None)
         }
@@ -1762,6 +1839,8 @@ impl Scenario for C09 {
             gen_acc_trace(rng, &o, Some(l))
         } else if run % 197 == 1 {
             gen_huge(rng, true)
+        } else if run % 997 == 2 {
+            gen_long(rng, true)
         } else {
             gen_acc_trace(rng, &o, None)
         }
